@@ -2,12 +2,18 @@
 
 spec -> code : TLC explores WriterGen (all well-nested write histories within bounds, every state a Close
                point; model-level: implementation-shaped writer = WriterDef, content preserved, reader model
-               accepts, recount clean) and emits every history; each is written through the real X12Writer
-               under several delimiter settings and closed.
-code -> spec : each execution (per-Write appended segments, final stream, re-read with the real X12Reader, ISA
-               delimiters), plus repository fixtures piped reader->writer and seeded random deep histories,
-               is validated by TLC against T_Writer.
+               accepts, recount clean) and emits every history; each is turned into Segment objects parsed
+               under one of several SOURCE delimiter sets (the document the segments came from: element
+               separator ^, sub-element separator equal to the writer's repetition separator, control
+               characters, ...), written through the real X12Writer under one of several writer settings and
+               closed.  Short histories additionally run under the complete source x writer matrix, which
+               covers every coincidence "writer delimiter of role Y = source delimiter of role X".
+code -> spec : each execution (per-Write appended segments, final stream, re-read with the real X12Reader, the
+               writer setting, the source delimiters and every ISA of the output as observed), plus repository
+               fixtures piped reader->writer and seeded random deep histories, is validated by TLC against
+               T_Writer (Writer!IsaFault decides whether an ISA carries the writer's own delimiters).
 """
+import zlib
 import io
 import json
 import os
@@ -25,23 +31,50 @@ import pyx12.x12file
 import pyx12.segment
 
 # (seg_term, ele_term, subele_term, eol, repetition_term)
-SETTINGS = [('~', '*', ':', '\n', '^'), ('~', '*', '\\', '\n', '^'), ('+', '&', '!', '', '%'), ('|', '^', '>', '\r\n', '~'), ('\n', '*', ':', '', '^')]
+SETTINGS = [('~', '*', ':', '\n', '^'), ('~', '*', '\\', '\n', '^'), ('+', '&', '!', '', '%'), ('|', '^', '>', '\r\n', '~'), ('\n', '*', ':', '', '^'),
+            ('\x1c', '\x1d', '\x1f', '', '\x1e')]
+# source delimiter sets (seg_term, ele_term, subele_term, repetition_term) of the document the written Segment objects were parsed from
+SOURCES = [('~', '*', ':', '^'), ('~', '^', ':', '|'), ('~', '|', '^', '*'), ('\x1c', '\x1d', '\x1f', '\x1e'), ('\n', '>', '*', '~'),
+           ('^', ':', '~', '\\'), ('!', '%', '+', '&')]
+DEFAULT_SRC = SOURCES[0]
+# complete matrix; consecutive indexes vary the writer setting fastest
+COMBOS = [(src, setting) for src in SOURCES for setting in SETTINGS]
 ENVC = c04.KINDMAP
 
 
-def src_text(s):
-    """input segment text in the source delimiters ~ * :"""
+def combo(i):
+    return COMBOS[i % len(COMBOS)]
+
+
+def coincidences():
+    """which (writer role = source role) coincidences the matrix contains"""
+    got = set()
+    for src, (st, et, ct, eol, rt) in COMBOS:
+        for wn, wc in (('seg', st), ('ele', et), ('subele', ct), ('rep', rt)):
+            for sn, sc in zip(('seg', 'ele', 'subele', 'rep'), src):
+                if wc == sc:
+                    got.add('writer %s = source %s' % (wn, sn))
+    return got
+
+
+def src_text(s, src=DEFAULT_SRC):
+    """input segment text in the source delimiters"""
+    ss, se, sc, sr = src
     k = s['k']
     if k == 'ISA':
         ver = s['n'] or '00401'
-        return '*'.join(['ISA', '00', ' ' * 10, '00', ' ' * 10, 'ZZ', 'SENDER'.ljust(15), 'ZZ', 'RECEIVER'.ljust(15), '200101', '1200',
-                         '^' if ver == '00501' else 'U', ver, s['id'].rjust(9, '0'), '0', 'P', ':']) + '~'
+        return se.join(['ISA', '00', ' ' * 10, '00', ' ' * 10, 'ZZ', 'SENDER'.ljust(15), 'ZZ', 'RECEIVER'.ljust(15), '200101', '1200',
+                        sr if ver == '00501' else 'U', ver, s['id'].rjust(9, '0'), '0', 'P', sc]) + ss
     if k == 'B':
-        return 'SV1*HC:99213:A1*40.5**UN*1~'
+        return se.join(['SV1', sc.join(['HC', '99213', 'A1']), '40.5', '', 'UN', '1']) + ss
     el = c04.seg_elems(s)
     while len(el) > 1 and el[-1] == '':
         el.pop()
-    return '*'.join(el) + '~'
+    return se.join(el) + ss
+
+
+def codes(x):
+    return [ord(c) for c in x]
 
 
 def split_out(text, setting):
@@ -82,16 +115,18 @@ def canon(seg):
     return seg.format('~', '*', ':')
 
 
-def run_writer(tid, hist, setting, segs=None, real_ids=False):
+def run_writer(tid, hist, setting, segs=None, src=DEFAULT_SRC):
     st, et, ct, eol, rt = setting
+    ss, se, sc, sr = src
     fd = io.StringIO()
-    tr = {'id': tid, 'hist': hist, 'steps': [], 'final': [], 'same': True, 'reread': [], 'isa_ok': True, 'exc': '', 'setting': list(setting)}
+    tr = {'id': tid, 'hist': hist, 'steps': [], 'final': [], 'same': True, 'reread': [], 'isas': [], 'exc': '', 'setting': list(setting), 'source': list(src),
+          'w': {'st': ord(st), 'et': ord(et), 'ct': ord(ct), 'rt': ord(rt)}, 'src': {'seg': ord(ss), 'ele': ord(se), 'sub': ord(sc), 'rep': ord(sr)}}
     try:
         w = pyx12.x12file.X12Writer(fd, st, et, ct, eol, rt)
         inputs = []
         pos = 0
         for i, s in enumerate(hist):
-            seg = segs[i] if segs is not None else pyx12.segment.Segment(src_text(s), '~', '*', ':')
+            seg = segs[i] if segs is not None else pyx12.segment.Segment(src_text(s, src), ss, se, sc)
             if s['k'] not in ('SE', 'GE', 'IEA'):
                 inputs.append(canon(seg))
             w.Write(seg)
@@ -106,9 +141,6 @@ def run_writer(tid, hist, setting, segs=None, real_ids=False):
     text = fd.getvalue()
     pieces = split_out(text, setting)
     tr['final'] = [abstract_out(p, setting) for p in pieces]
-    if real_ids:
-        for a, p in zip(tr['final'], pieces):
-            pass
     # content: non-trailer output segments, re-parsed with the writer's delimiters, equal the inputs in order
     outs = []
     for p in pieces:
@@ -117,10 +149,11 @@ def run_writer(tid, hist, setting, segs=None, real_ids=False):
             continue
         seg = pyx12.segment.Segment(p, st, et, ct)
         outs.append(canon(seg))
-        if sid == 'ISA':
+        if sid == 'ISA' or p[:3] == 'ISA':
+            # the ISA as it stands in the text (projection only; Writer!IsaFault judges it)
             el = p.split(et)
-            ok = len(el) == 17 and el[16] == ct and (el[12] != '00501' or el[11] == rt)
-            tr['isa_ok'] = tr['isa_ok'] and ok
+            tr['isas'].append({'et': ord(p[3]) if len(p) > 3 else 0, 'nel': len(el), 'e11': codes(el[11]) if len(el) > 11 else [],
+                               'e16': codes(el[16]) if len(el) > 16 else [], 'ver': el[12] if len(el) > 12 else ''})
     tr['same'] = outs == inputs
     # the text must use the writer's terminator and eol after every segment
     if eol and pieces:
@@ -145,15 +178,29 @@ def _run_batch(args):
     out = []
     for j, h in enumerate(hists):
         tid = base + j
-        out.append(run_writer(tid, h, SETTINGS[tid % len(SETTINGS)]))
+        src, setting = combo(zlib.crc32(json.dumps(h, sort_keys=True).encode()) + vlib.seed())
+        out.append(run_writer(tid, h, setting, src=src))
     return out
+
+
+def _run_matrix(args):
+    base, hists = args
+    out = []
+    for j, h in enumerate(hists):
+        for c, (src, setting) in enumerate(COMBOS):
+            out.append(run_writer(base + j * len(COMBOS) + c, h, setting, src=src))
+    return out
+
+
+def _run_job(job):
+    return job[0](job[1])
 
 
 def _validate_batch(traces):
     d = vlib.scratch('c11tv')
     try:
         p = os.path.join(d, 'traces.json')
-        vlib.write_json(p, [{k: v for k, v in t.items() if k != 'setting'} for t in traces])
+        vlib.write_json(p, [{k: v for k, v in t.items() if k not in ('setting', 'source')} for t in traces])
         res = run_tlc('T_Writer', 'SPECIFICATION Spec\nINVARIANT Report\n', env={'TRACE_FILE': p}, workers=1, timeout=1500, heap='3g')
         if res.error:
             raise vlib.MachineryError('T_Writer: ' + res.error)
@@ -178,14 +225,19 @@ def validate(chk, traces, label):
     tot = vlib.TlcResult()
     for r in results:
         tot.distinct += r['distinct']; tot.generated += r['generated']; tot.wall = max(tot.wall, r['wall']); tot.depth = max(tot.depth, r['depth'])
-        for tid, clause in r['rej']:
+        for tid, clause, coin in r['rej']:
             tr = byid[tid]
             sig = {'clause': clause, 'history': shape(tr['hist'])}
-            if clause == 'isa_delims':
-                sig = {'clause': clause, 'version': [s['n'] for s in tr['hist'] if s['k'] == 'ISA'][:1], 'subele_is_default': tr['setting'][2] == ':'}
-            chk.violation(sig, 'X12Writer%s on [%s] then Close: clause %s; stream = [%s], re-read errors %s, exc %s'
-                          % (tuple(tr['setting']), shape(tr['hist']), clause, shape(tr['final']), tr['reread'], tr['exc']),
-                          {'kind': 'writer', 'history': tr['hist'], 'setting': tr['setting'], 'clause': clause})
+            if clause.startswith('isa_delims:'):
+                # the spec names the faulty field, the version of that ISA and how the writer's delimiters coincide with the source's
+                clause, field, ver = clause.split(':')
+                sig = {'clause': clause, 'field': field, 'version': ver}
+                sig.update(coin)
+            chk.violation(sig, 'segments parsed with (seg, ele, subele, rep) = %r written by X12Writer%r, [%s] then Close: clause %s; stream = [%s], ISAs as written %s, '
+                          're-read errors %s, exc %s'
+                          % (tuple(tr['source']), tuple(tr['setting']), shape(tr['hist']), sig, shape(tr['final']),
+                             [dict(i, e11=''.join(map(chr, i['e11'])), e16=''.join(map(chr, i['e16'])), et=chr(i['et'])) for i in tr['isas'][:2]], tr['reread'], tr['exc']),
+                          {'kind': 'writer', 'history': tr['hist'], 'setting': tr['setting'], 'source': tr['source'], 'clause': clause})
         for d in r['drift'][:3]:
             chk.extra.setdefault('spec_drift', [])
             if len(chk.extra['spec_drift']) < 10:
@@ -194,15 +246,44 @@ def validate(chk, traces, label):
     chk.add_traces(len(traces))
     chk.add_eval(sum(len(t['hist']) + 1 for t in traces))
     for t in traces:
-        chk.note_distinct(label + shape(t['hist']) + str(t['setting']))
-    chk.sample({'source': label, 'writes': shape(traces[-1]['hist']), 'writer_setting': traces[-1]['setting'], 'stream_after_close': shape(traces[-1]['final'])})
+        chk.note_distinct(label + shape(t['hist']) + str(t['setting']) + str(t['source']))
+    chk.sample({'source': label, 'writes': shape(traces[-1]['hist']), 'segments_parsed_with': traces[-1]['source'], 'writer_setting': traces[-1]['setting'],
+                'stream_after_close': shape(traces[-1]['final'])})
+
+
+def fixture_segments(segs, src):
+    """the fixture's segments as parsed from the same document written in the delimiters src"""
+    ss, se, sc, sr = src
+    out = []
+    for s in segs:
+        if s.get_seg_id() == 'ISA':
+            vals = [s.get_value('ISA%02d' % i) or '' for i in range(1, 17)]
+            if vals[11] == '00501':
+                vals[10] = sr
+            vals[15] = sc
+            out.append(pyx12.segment.Segment(se.join(['ISA'] + vals) + ss, ss, se, sc))
+        else:
+            out.append(pyx12.segment.Segment(s.format(ss, se, sc), ss, se, sc))
+    return out
+
+
+def fixture_chars(segs):
+    """characters of the data values (ISA11 / ISA16 are delimiters, not data)"""
+    used = set()
+    for s in segs:
+        if s.get_seg_id() == 'ISA':
+            used.update(''.join(s.get_value('ISA%02d' % i) or '' for i in range(1, 17) if i not in (11, 16)))
+        else:
+            used.update(s.format('\x00', '\x01', '\x02').replace('\x00', '').replace('\x01', '').replace('\x02', ''))
+    return used
 
 
 def fixtures_traces(base):
     out = []
-    for k, src in c04.fixtures():
+    skipped = 0
+    for fi, (k, src_doc) in enumerate(c04.fixtures()):
         try:
-            rd = pyx12.x12file.X12Reader(io.StringIO(src))
+            rd = pyx12.x12file.X12Reader(io.StringIO(src_doc))
             segs = [s for s in rd]
         except Exception:
             continue
@@ -215,12 +296,16 @@ def fixtures_traces(base):
             if a['k'] in ('HL', 'CLM', 'LX'):
                 a = {'k': 'B', 'id': '', 'cnt': '', 'n': '', 'p': ''}
             hist.append(a)
-        for j, setting in enumerate(SETTINGS[:3]):
+        used = fixture_chars(segs)
+        # the default writer over the standard source, then two rotating (source, writer) combinations
+        for j, (src, setting) in enumerate([(DEFAULT_SRC, SETTINGS[1]), combo(fi * 11 + 7), combo(fi * 11 + 20)]):
+            if used & (set(src[:3]) | set(setting[:3])):
+                skipped += 1        # the data contains a delimiter: outside the property
+                continue
             base += 1
             # fresh Segment objects per run (Write mutates the ISA)
-            segs2 = [pyx12.segment.Segment(s.format('~', '*', ':'), '~', '*', ':') for s in segs]
-            out.append(run_writer(base, hist, setting, segs=segs2))
-    return out
+            out.append(run_writer(base, hist, setting, segs=fixture_segments(segs, src), src=src))
+    return out, skipped
 
 
 def random_hists(rnd, n, maxlen):
@@ -257,13 +342,21 @@ def random_hists(rnd, n, maxlen):
 def run(tier, replay=None):
     if replay:
         obj = json.load(open(replay))['replay']
-        tr = run_writer(0, obj['history'], tuple(obj['setting']))
-        print('writes  :', shape(obj['history']), 'setting', obj['setting'])
-        print('stream  :', shape(tr['final']), 'same', tr['same'], 'isa_ok', tr['isa_ok'], 'reread', tr['reread'], 'exc', tr['exc'])
+        src = tuple(obj.get('source') or DEFAULT_SRC)
+        tr = run_writer(0, obj['history'], tuple(obj['setting']), src=src)
+        print('writes  :', shape(obj['history']), 'segments parsed with (seg, ele, subele, rep)', repr(src), 'writer setting', obj['setting'])
+        print('stream  :', shape(tr['final']), 'same', tr['same'], 'reread', tr['reread'], 'exc', tr['exc'])
+        print('ISAs    :', [dict(i, e11=''.join(map(chr, i['e11'])), e16=''.join(map(chr, i['e16'])), et=chr(i['et'])) for i in tr['isas']],
+              '(expected: e16 = writer sub-element separator, e11 = writer repetition separator when ver = 00501, 17 fields)')
         print('recorded clause:', obj.get('clause'))
         return 0
     chk = Check('C11', tier)
-    chk.rule = 'one case per distinct (write history, writer delimiter setting), closed at its end; every prefix of a history is itself a case'
+    chk.rule = ('one case per distinct (write history, source delimiter set of the segments, writer delimiter setting), closed at its end; '
+                'every prefix of a history is itself a case')
+    co = coincidences()
+    if len(co) != 16:
+        raise vlib.MachineryError('delimiter matrix does not cover every writer-role = source-role coincidence: %s' % sorted(co))
+    chk.extra['delimiter_matrix'] = {'sources': len(SOURCES), 'writer_settings': len(SETTINGS), 'coincidences_covered': sorted(co)}
     q = tier == 'quick'
     tid = 0
     for label, maxlen, vers in (('wn-4010', 6 if q else 7, ['00401']), ('wn-both', 5 if q else 6, ['00401', '00501'])):
@@ -279,18 +372,38 @@ def run(tier, replay=None):
         hists = res.payloads.get('HIST', [])
         if not hists:
             raise vlib.MachineryError('WriterGen emitted nothing')
-        traces = [t for r in vlib.parallel_map(_run_batch, [(tid + i, b) for i, b in zip(range(0, len(hists), 1000), vlib.chunked(hists, 1000))]) for t in r]
+        batch_args = [(tid + i, b) for i, b in zip(range(0, len(hists), 500), vlib.chunked(hists, 500))]
         tid += len(hists)
+        if len(vers) > 1:
+            # complete source x writer matrix on the short histories (both versions) and a deterministic sample of the longest ones;
+            # replayed in the same pool and validated in the same TLC batches as the rotated runs
+            ordered = sorted(hists, key=lambda h: (len(h), json.dumps(h, sort_keys=True)))
+            short = [h for h in ordered if len(h) <= (2 if q else 3)]
+            longer = [h for h in ordered if len(h) == maxlen]
+            short += longer[::max(1, len(longer) // (8 if q else 60))][:8 if q else 60]
+            per = max(1, len(short) // vlib.NCPU + 1)
+            jobs = [(_run_matrix, (tid + i * len(COMBOS), b)) for i, b in zip(range(0, len(short), per), vlib.chunked(short, per))]
+            tid += len(short) * len(COMBOS)
+            chk.extra['delimiter_matrix']['histories'] = len(short)
+            label += ' + delimiter-matrix'
+        else:
+            jobs = []
+        jobs += [(_run_batch, a) for a in batch_args]
+        traces = [t for r in vlib.parallel_map(_run_job, jobs) for t in r]
         validate(chk, traces, label)
     rnd = random.Random(vlib.seed() + 11)
     hs = random_hists(rnd, 400 if q else 6000, 18 if q else 40)
     traces = [t for r in vlib.parallel_map(_run_batch, [(tid + i, b) for i, b in zip(range(0, len(hs), 500), vlib.chunked(hs, 500))]) for t in r]
     tid += len(hs)
     validate(chk, traces, 'random-deep')
-    validate(chk, fixtures_traces(tid), 'fixtures reader->writer')
+    ftr, skipped = fixtures_traces(tid)
+    chk.extra['fixture_runs_skipped_data_contains_delimiter'] = skipped
+    validate(chk, ftr, 'fixtures reader->writer')
     chk.assumptions = ['well-nested = a header only directly inside its enclosing level, a trailer only while its level is open (inner levels may be open)',
                        'reuse of a control number supplied by the caller is copied, so reader errors 025/6/23 on the output are not attributed to the writer',
-                       'the 837 LX renumbering option of the writer is off (default)']
+                       'the 837 LX renumbering option of the writer is off (default)',
+                       'the four delimiters of a writer setting are pairwise distinct, likewise of a source document; no data value contains a source or writer delimiter '
+                       '(the ISA11 and ISA16 of the source ISA are delimiters, not data); source and writer delimiters may coincide in any roles']
     return chk.finish()
 
 
